@@ -8,21 +8,24 @@ using namespace wc;
 #ifndef VK_REQS
 #define VK_REQS 2
 #endif
-#ifndef VK_ACK_VARIANTS
-#define VK_ACK_VARIANTS 6
-#endif
 #ifndef VK_RM
 #define VK_RM 0             // Receive Maximum announced by the broker (0: none)
 #endif
 #ifndef VK_DROP
 #define VK_DROP 0            // how the connection dies: 0 reset, 1 eof / broken pipe, 2 aborted, 3 seen by the reader only (write in flight is aborted by the reconnect), 9 any of them (forked)
 #endif
+#ifndef VK_RFAULT
+#define VK_RFAULT 0          // 1: a reconnect may first run into a refused / failing / silent / unresolvable attempt
+#endif
 #ifndef VK_MODE      // 1: C01, 2: C02, 3: C03, 6: C06
 #define VK_MODE 1
 #endif
+#ifndef VK_ACK_VARIANTS
+#define VK_ACK_VARIANTS (VK_MODE == 1 ? 7 : 6)   // the 7th variant (acknowledgement with properties) matters to C01's oracle only
+#endif
 
 struct req_t { int op; uint8_t qos; uint8_t tag; uint8_t t1, p1; bool retain; bool has_exp; uint32_t exp; };
-struct ack_t { uint8_t type; uint16_t pid; uint8_t rc; int epoch; int after_pk; bool valid; bool consumed; bool answers; bool parked; };
+struct ack_t { uint8_t type; uint16_t pid; uint8_t rc; int epoch; int after_pk; bool valid; bool consumed; bool answers; bool parked; bool has_rs; uint8_t rs1; };
 
 struct X {
   W w;
@@ -53,7 +56,7 @@ struct X {
   // answers: the packet is the broker's (only) answer to what it owed for (type, pid) on this connection, well-formed or not
   void log_ack(uint8_t type, uint16_t pid, uint8_t rc, bool valid, bool answers) {
     vk_assert(nacks < 16, "harness: ack log capacity");
-    acks[nacks++] = ack_t{type, pid, rc, w.epoch, w.npk, valid, false, answers, false};
+    acks[nacks++] = ack_t{type, pid, rc, w.epoch, w.npk, valid, false, answers, false, false, 0};
   }
   // ---- events
   void ev_publish() {
@@ -137,9 +140,12 @@ struct X {
       case 2: form = 2; break;
       case 3: rc = t == ref::PUBCOMP ? 0x92 : t == ref::PUBREC ? 0x97 : 0x10; break;      // PUBREC >= 0x80 ends the exchange
       case 4: chunk = 1; break;
-      default: chunk = 2; form = 2; break;
+      case 5: chunk = 2; form = 2; break;
+      default: form = 3; break;                                                           // with a Reason String (one symbolic character)
     }
-    log_ack(t, pid, rc, true, true); w.ack(t, pid, rc, form);
+    log_ack(t, pid, rc, true, true);
+    if (form == 3) { uint8_t c = vk_sym_u8(); vk_assume(c >= 0x20 && c < 0x7F); acks[nacks - 1].has_rs = true; acks[nacks - 1].rs1 = c; w.ack_with_reason(t, pid, rc, c); vk_reach("ack-with-properties"); }
+    else w.ack(t, pid, rc, form);
     deliver(chunk);
     vk_reach(t == ref::PUBACK ? "puback" : t == ref::PUBREC ? "pubrec" : "pubcomp");
   }
@@ -174,6 +180,16 @@ struct X {
       w.drop_connection_any(VK_DROP); vk::drain(); for (int q = 0; q < VK_REQS; q++) early_req[q] = false;
     } else if (!w.attempt_in_progress()) vk_assume(0);      // the client itself left the connection (e.g. after DISCONNECT 0x81) and is reconnecting
     int before = w.npk;
+#if VK_RFAULT
+    // the first attempt(s) to come back fail: TCP refused, CONNACK with a failure code, silent broker (5 s), resolve error
+    for (int nf = 0; nf < VK_RFAULT; nf++) {
+      int how = (int)vk_choose(5); if (how == 0) break;
+      bool fa = w.failed_attempt(how); vk_assert(fa, "the client tries to connect again after a failed attempt");
+      if (how == 2 || how == 3) vk_assert(w.count_of(ref::PUBLISH, w.epoch) == 0, "a PUBLISH was written on a connection whose CONNECT was never accepted");
+      on_new_packets(before); before = w.npk; stamp_epoch();
+      vk_reach(how == 1 ? "attempt-refused" : how == 2 ? "connack-refused" : how == 3 ? "attempt-timed-out" : "resolve-failed");
+    }
+#endif
     bool ok = w.establish(); vk_assert(ok, "the client reconnects after a connection loss");
     static const uint8_t rm_props[3] = {0x21, 0, VK_RM};
     w.send_connack(true, 0, VK_RM ? rm_props : nullptr, VK_RM ? 3 : 0); w.feed_all(); vk::drain();
@@ -215,6 +231,7 @@ struct X {
 #endif
     }
   }
+  void stamp_epoch() { for (int i = 0; i < w.npk; i++) { pkt_rec& r = w.pk[i]; if (r.aux == -1 && r.type == ref::PUBLISH && r.epoch == w.epoch) r.aux = req_of(r); } }
   // req_of for packets of earlier connections: compare through the saved first transmission
   int req_of_any(int j) {
     if (w.pk[j].epoch == w.epoch) return req_of(w.pk[j]);
@@ -249,7 +266,14 @@ struct X {
           seen = rel;
         } else
           for (int j = 0; j < k.after_pk && j < w.npk; j++) if (w.pk[j].epoch == k.epoch && w.pk[j].type == ref::PUBLISH && w.pk[j].pid == k.pid && req_of_any(j) == i) seen = true;
-        if (seen && o.rc == k.rc) found = true;
+        if (seen && o.rc == k.rc) {
+          found = true;
+          // ... and the properties handed to the handler are the ones of that acknowledgement (PUBACK / PUBCOMP)
+          if (k.type == fin) {
+            vk_assert(o.has_rs == k.has_rs && (!k.has_rs || (o.rs_len == 2 && o.rs1 == k.rs1)), "the properties handed to the publish handler are not the ones contained in the final acknowledgement (Reason String)");
+            vk_assert(o.nuser == 0, "the publish handler received User Properties the acknowledgement did not contain");
+          }
+        }
       }
       vk_assert(found, "publish completed successfully without the broker having received it and sent the final acknowledgement with that reason code");
       vk_reach("success-checked");
